@@ -1,9 +1,451 @@
-/- C13 — executable model (core Lean only).  Stub. -/
+/-
+C13 — executable model of the optimiser (`optimize/optimizer.py`, `optimize/grid.py`
+`GridBase.update`, `optimize/iteration.py` `IterationDriver`, the clamp/link interface of
+`optimize/clamps/clamp.py` and `optimize/links.py`, `MeshOptimizer/SketchOptimizer.backport`,
+`MappedSketch.update/positions`) as a state machine over ABSTRACT types
+
+  `P`   points            `Prm` clamp parameter vectors
+  `Q`   quality values    `S`   sensitivities
+
+with every numerical ingredient an ORACLE argument:
+
+  `Oracles.gq : List P → Option Q`        `GridBase.quality`   (`none` = degenerate cell → ValueError)
+  `Oracles.jq : Nat → List P → Option Q`  `Junction.quality` of junction `idx`
+  `Cfg.pos j : Prm → P`                   `clamp.function` of clamp number `j`
+  `Cfg.linkFn lid : P → P`                `link.transform()` as a function of the leader position
+  `IterSched.probe j`                     what `approx_fprime` evaluates for clamp `j` + the norm it returns
+  `IterSched.solve k j`                   what `scipy.optimize.minimize` evaluates in the k-th call of
+                                          `optimize_clamp` of the iteration when that call is for clamp `j`,
+                                          + whether the solver itself raised `ValueError`
+  `conv`                                  the tolerance part of `IterationDriver.converged`
+
+The code is mirrored as it is after the repairs `fix: functions.mirror no longer changes the point
+passed to it` (a link is a pure function of the leader position; `clamp.position` is always
+`clamp.function(clamp.params)`) and `fix: a sensitivity probe that raises no longer aborts optimize()
+half-way` (see `probeClamp`).
+
+Core Lean + `Std.Data.HashMap` (toolchain library, used only by the line-protocol part at the end).
+-/
 import CBV.Model.Common
 import CBV.Gen.Tables
+import Std.Data.HashMap
 
 namespace CBV.C13
 
-def handle (_op : String) (_args : List String) : Option String := none
+/-- `IndexedLink` as stored in `Junction.links` of junction `leader`. -/
+structure Link where
+  leader : Nat
+  follower : Nat
+  lid : Nat
+  deriving DecidableEq, Repr
+
+/-- The static part of a grid with clamps and links. Clamp number `j` (its position in
+    `GridBase.clamps`, which walks the junctions in index order) sits on junction `clampIdx[j]`. -/
+structure Cfg (P Prm : Type) where
+  clampIdx : List Nat
+  pos : Nat → Prm → P
+  links : List Link
+  linkFn : Nat → P → P
+
+structure Oracles (P Q : Type) where
+  gq : List P → Option Q
+  jq : Nat → List P → Option Q
+
+/-- The mutable part: `GridBase.points` and `clamp.params` of every clamp. -/
+structure St (P Prm : Type) where
+  pts : List P
+  prm : List Prm
+
+variable {P Prm Q S : Type}
+
+/-- `Junction.links` of junction `idx`, in the order of the `add_link` calls. -/
+def linksOf (cfg : Cfg P Prm) (idx : Nat) : List Link := cfg.links.filter (fun l => l.leader == idx)
+
+/-- the `for indexed_link in junction.links` loop of `GridBase.update` -/
+def applyLinks (cfg : Cfg P Prm) (ls : List Link) (p : P) (pts : List P) : List P :=
+  ls.foldl (fun acc l => acc.set l.follower (cfg.linkFn l.lid p)) pts
+
+/-- the points after `GridBase.update(idx, p)` -/
+def updPts (cfg : Cfg P Prm) (pts : List P) (idx : Nat) (p : P) : List P :=
+  applyLinks cfg (linksOf cfg idx) p (pts.set idx p)
+
+/-- `GridBase.update(idx, p)`: new points and the returned quality (grid quality when the junction
+    has links, junction quality otherwise; `none` = the quality computation raised, the points are
+    written nevertheless). -/
+def gridUpdate (cfg : Cfg P Prm) (o : Oracles P Q) (pts : List P) (idx : Nat) (p : P) : List P × Option Q :=
+  let pts' := updPts cfg pts idx p
+  match linksOf cfg idx with
+  | [] => (pts', o.jq idx pts')
+  | _ :: _ => (pts', o.gq pts')
+
+/-- `clamp.update_params(p); grid.update(junction.index, clamp.position)` for clamp `j` on junction `idx` -/
+def moveClamp (cfg : Cfg P Prm) (o : Oracles P Q) (st : St P Prm) (j idx : Nat) (p : Prm) : St P Prm × Option Q :=
+  let r := gridUpdate cfg o st.pts idx (cfg.pos j p)
+  ({ pts := r.1, prm := st.prm.set j p }, r.2)
+
+/-- the evaluations `fquality(x)` a `scipy.optimize.minimize` call makes, in order; stops at the
+    first one that raises (`false`) -/
+def runEvals (cfg : Cfg P Prm) (o : Oracles P Q) (j idx : Nat) : St P Prm → List Prm → St P Prm × Bool
+  | st, [] => (st, true)
+  | st, e :: es =>
+      match moveClamp cfg o st j idx e with
+      | (st', some _) => runEvals cfg o j idx st' es
+      | (st', none) => (st', false)
+
+/-- the evaluations of `_get_sensitivity.fquality`: update, then `junction.quality` -/
+def runProbe (cfg : Cfg P Prm) (o : Oracles P Q) (j idx : Nat) : St P Prm → List Prm → St P Prm × Bool
+  | st, [] => (st, true)
+  | st, e :: es =>
+      match moveClamp cfg o st j idx e with
+      | (st', some _) =>
+          match o.jq idx st'.pts with
+          | some _ => runProbe cfg o j idx st' es
+          | none => (st', false)
+      | (st', none) => (st', false)
+
+inductive Flag where
+  | improved | rollback | skip
+  deriving DecidableEq, Repr
+
+/-- where a `ValueError` left `optimize()` -/
+inductive Site where
+  | probe | clampStart | clampRestore | iterBegin | iterEnd | illFormed
+  deriving DecidableEq, Repr
+
+/-- `ClampOptimizationData` of one `optimize_clamp` call -/
+structure Step (Q : Type) where
+  clamp : Nat
+  flag : Flag
+  gridInitial : Q
+  gridFinal : Q
+
+structure StepRes (P Prm Q : Type) where
+  st : St P Prm
+  raised : Option Site
+  step : Option (Step Q)
+
+/-- the restore `clamp.update_params(initial_params); self.grid.update(junction.index, clamp.position)`
+    of the `except ValueError` branch -/
+def restoreSkip (cfg : Cfg P Prm) (o : Oracles P Q) (st : St P Prm) (j idx : Nat) (init : Prm) (gi : Q) :
+    StepRes P Prm Q :=
+  let r := moveClamp cfg o st j idx init
+  { st := r.1, raised := if r.2.isSome then none else some .clampRestore,
+    step := some ⟨j, .skip, gi, gi⟩ }
+
+/-- `OptimizerBase.optimize_clamp(clamp, method)` for clamp number `j`; `evals` are the parameter
+    vectors the solver evaluates, `solverRaised` says the solver itself raised `ValueError` after them. -/
+def optimizeClamp [LE Q] [DecidableLE Q] (cfg : Cfg P Prm) (o : Oracles P Q) (st : St P Prm) (j : Nat)
+    (evals : List Prm) (solverRaised : Bool) : StepRes P Prm Q :=
+  match cfg.clampIdx[j]?, st.prm[j]? with
+  | some idx, some init =>
+      -- reporter = ClampOptimizationData(junction.index, self.grid.quality, junction.quality)
+      match o.gq st.pts, o.jq idx st.pts with
+      | some gi, some _ =>
+          let r := runEvals cfg o j idx st evals
+          if r.2 && !solverRaised then
+            -- reporter.junction_final = junction.quality; reporter.grid_final = self.grid.quality
+            match o.jq idx r.1.pts, o.gq r.1.pts with
+            | some _, some gf =>
+                if gi ≤ gf then
+                  -- improvement <= 0: rollback (still inside `try`)
+                  let b := moveClamp cfg o r.1 j idx init
+                  match b.2 with
+                  | some _ => { st := b.1, raised := none, step := some ⟨j, .rollback, gi, gi⟩ }
+                  | none => restoreSkip cfg o b.1 j idx init gi
+                else { st := r.1, raised := none, step := some ⟨j, .improved, gi, gf⟩ }
+            | _, _ => restoreSkip cfg o r.1 j idx init gi
+          else restoreSkip cfg o r.1 j idx init gi
+      | _, _ => { st := st, raised := some .clampStart, step := none }
+  | _, _ => { st := st, raised := some .illFormed, step := none }
+
+/-- `OptimizerBase._get_sensitivity(clamp)` without the returned number (that is an oracle):
+    probe evaluations — a `ValueError` in one of them (degenerate cell, clamp function outside its
+    bounds) ends the probing and is swallowed (repair `fix: a sensitivity probe that raises no longer
+    aborts optimize() half-way`) — then the restore, whose quality computation is not protected. -/
+def probeClamp (cfg : Cfg P Prm) (o : Oracles P Q) (st : St P Prm) (j idx : Nat) (evals : List Prm) :
+    St P Prm × Option Site :=
+  match st.prm[j]? with
+  | none => (st, some .illFormed)
+  | some init =>
+      let r := runProbe cfg o j idx st evals
+      let b := moveClamp cfg o r.1 j idx init
+      (b.1, if b.2.isSome then none else some .probe)
+
+/-- What one iteration gets from outside. -/
+structure IterSched (Prm S : Type) where
+  probe : Nat → List Prm × S
+  solve : Nat → Nat → List Prm × Bool
+
+/-- the key computations of `sorted(self.grid.clamps, key=self._get_sensitivity, reverse=True)`,
+    over the `(junction index, clamp number)` pairs still to do -/
+def probeAll (cfg : Cfg P Prm) (o : Oracles P Q) (sch : IterSched Prm S) :
+    List (Nat × Nat) → St P Prm → St P Prm × List (Nat × S) × Option Site
+  | [], st => (st, [], none)
+  | (idx, j) :: rest, st =>
+      match probeClamp cfg o st j idx (sch.probe j).1 with
+      | (st', some e) => (st', [], some e)
+      | (st', none) =>
+          let r := probeAll cfg o sch rest st'
+          (r.1, (j, (sch.probe j).2) :: r.2.1, r.2.2)
+
+/-- insertion keeping descending keys and, among equal keys, the order of arrival (python's
+    `sorted(..., reverse=True)` is stable) -/
+def insertDesc [LT S] [DecidableLT S] (x : Nat × S) : List (Nat × S) → List (Nat × S)
+  | [] => [x]
+  | y :: ys => if y.2 < x.2 then x :: y :: ys else y :: insertDesc x ys
+
+def sortDesc [LT S] [DecidableLT S] (xs : List (Nat × S)) : List (Nat × S) :=
+  xs.foldl (fun acc x => insertDesc x acc) []
+
+structure IterRes (P Prm Q : Type) where
+  st : St P Prm
+  raised : Option Site
+  steps : List (Step Q)
+
+/-- the `for clamp in clamps: self.optimize_clamp(clamp, method)` loop; `k` counts the calls -/
+def solveAll [LE Q] [DecidableLE Q] (cfg : Cfg P Prm) (o : Oracles P Q) (sch : IterSched Prm S) :
+    List Nat → Nat → St P Prm → IterRes P Prm Q
+  | [], _, st => { st := st, raised := none, steps := [] }
+  | j :: js, k, st =>
+      let r := optimizeClamp cfg o st j (sch.solve k j).1 (sch.solve k j).2
+      match r.raised with
+      | some e => { st := r.st, raised := some e, steps := r.step.toList }
+      | none =>
+          let t := solveAll cfg o sch js (k + 1) r.st
+          { st := t.st, raised := t.raised, steps := r.step.toList ++ t.steps }
+
+/-- `OptimizerBase.optimize_iteration(method)` -/
+def optimizeIteration [LE Q] [DecidableLE Q] [LT S] [DecidableLT S] (cfg : Cfg P Prm) (o : Oracles P Q)
+    (sch : IterSched Prm S) (st : St P Prm) : IterRes P Prm Q :=
+  match probeAll cfg o sch cfg.clampIdx.zipIdx st with
+  | (st', _, some e) => { st := st', raised := some e, steps := [] }
+  | (st', keys, none) => solveAll cfg o sch ((sortDesc keys).map (·.1)) 0 st'
+
+structure OptRes (P Prm Q : Type) where
+  st : St P Prm
+  raised : Option Site
+  /-- `(initial_quality, final_quality)` of every finished iteration, oldest first -/
+  hist : List (Q × Q)
+  steps : List (List (Step Q))
+  outOfFuel : Bool
+
+/-- `IterationDriver.converged` with the tolerance criterion abstract -/
+def converged (conv : List (Q × Q) → Bool) (maxIter : Nat) (hist : List (Q × Q)) : Bool :=
+  decide (maxIter ≤ hist.length) || conv hist
+
+/-- the `while not driver.converged` loop of `OptimizerBase.optimize`; iteration number
+    `hist.length` uses `sched hist.length` -/
+def optimizeLoop [LE Q] [DecidableLE Q] [LT S] [DecidableLT S] (cfg : Cfg P Prm) (o : Oracles P Q)
+    (conv : List (Q × Q) → Bool) (maxIter : Nat) (sched : Nat → IterSched Prm S) :
+    Nat → List (Q × Q) → List (List (Step Q)) → St P Prm → OptRes P Prm Q
+  | fuel, hist, steps, st =>
+      if converged conv maxIter hist then
+        { st := st, raised := none, hist := hist, steps := steps, outOfFuel := false }
+      else
+        match fuel with
+        | 0 => { st := st, raised := none, hist := hist, steps := steps, outOfFuel := true }
+        | fuel + 1 =>
+            match o.gq st.pts with
+            | none => { st := st, raised := some .iterBegin, hist := hist, steps := steps, outOfFuel := false }
+            | some q0 =>
+                let r := optimizeIteration cfg o (sched hist.length) st
+                match r.raised with
+                | some e =>
+                    { st := r.st, raised := some e, hist := hist, steps := steps ++ [r.steps], outOfFuel := false }
+                | none =>
+                    match o.gq r.st.pts with
+                    | none =>
+                        { st := r.st, raised := some .iterEnd, hist := hist, steps := steps ++ [r.steps],
+                          outOfFuel := false }
+                    | some q1 =>
+                        optimizeLoop cfg o conv maxIter sched fuel (hist ++ [(q0, q1)]) (steps ++ [r.steps]) r.st
+
+/-- `OptimizerBase.optimize(max_iterations, tolerance, method)` up to (not including) `backport`;
+    `maxIter` units of fuel always suffice (`T_C13_fuel`). -/
+def optimize [LE Q] [DecidableLE Q] [LT S] [DecidableLT S] (cfg : Cfg P Prm) (o : Oracles P Q)
+    (conv : List (Q × Q) → Bool) (maxIter : Nat) (sched : Nat → IterSched Prm S) (st : St P Prm) :
+    OptRes P Prm Q :=
+  optimizeLoop cfg o conv maxIter sched maxIter [] [] st
+
+/-! ### backport -/
+
+/-- `MeshOptimizer.backport`: `for i, point in enumerate(grid.points): mesh.vertices[i].move_to(point)` -/
+def backportMesh (verts : List P) (pts : List P) : List P :=
+  pts.zipIdx.foldl (fun vs (p, i) => vs.set i p) verts
+
+/-- `MappedSketch.update(positions)`: every face gets `[positions[iq] for iq in quad]`
+    (`none` = IndexError) -/
+def sketchUpdate (quads : List (List Nat)) (pts : List P) : Option (List (List P)) :=
+  quads.mapM (fun q => q.mapM (fun iq => pts[iq]?))
+
+/-- `MappedSketch.positions`: point `i` is read from the first place where `i` occurs in the
+    flattened quad list; `i` runs to the largest index used (`none` = `ValueError` of `list.index`) -/
+def sketchPositions (quads : List (List Nat)) (faces : List (List P)) : Option (List P) :=
+  let idxs := quads.flatten
+  let all := faces.flatten
+  match idxs.max? with
+  | none => none
+  | some mx => (List.range (mx + 1)).mapM (fun i => if i ∈ idxs then all[idxs.idxOf i]? else none)
+
+/-! ### the tolerance criterion of `IterationDriver.converged` over ℚ -/
+
+def vsmall : Rat := 1 / 1000000
+
+/-- `IterationData.improvement` -/
+def iterImprovement (h : Rat × Rat) : Rat :=
+  if (if h.1 - h.2 < 0 then h.2 - h.1 else h.1 - h.2) < vsmall then vsmall else h.1 - h.2
+
+/-- `len(iterations) >= 2 and last_improvement / iterations[0].initial_quality < tolerance` -/
+def convRat (tol : Rat) (hist : List (Rat × Rat)) : Bool :=
+  match hist.head?, hist.getLast? with
+  | some h0, some hl => decide (2 ≤ hist.length) && decide (iterImprovement hl / h0.1 < tol)
+  | _, _ => false
+
+/-! ### line protocol: the oracles are the tables recorded from a run of the implementation.
+Points and parameter vectors are numbers the harness assigned to the distinct float vectors it saw
+(`0` is never assigned: it is what a table miss produces, so a miss shows up in the answer). -/
+
+/-- quality values of the driver instance: a recorded rational or a table miss -/
+inductive QV where
+  | val (r : Rat)
+  | miss
+  deriving DecidableEq
+
+instance : LE QV where
+  le a b := match a, b with
+    | .val x, .val y => x ≤ y
+    | .miss, _ => True
+    | .val _, .miss => False
+
+instance : DecidableLE QV := fun a b => by
+  cases a <;> cases b <;> simp only [LE.le] <;> infer_instance
+
+def QV.show : QV → String
+  | .val r => showRat r
+  | .miss => "miss"
+
+def splitNonEmpty (s : String) (sep : String) : List String := (s.splitOn sep).filter (· ≠ "")
+
+def parseDots? (s : String) : Option (List Nat) := (splitNonEmpty s ".").mapM parseNat?
+
+def parseQ? (s : String) : Option (Option Rat) := if s = "x" then some none else (parseRat? s).map some
+
+structure Tables where
+  pos : Std.HashMap (Nat × Nat) Nat
+  lnk : Std.HashMap (Nat × Nat) Nat
+  gq : Std.HashMap (List Nat) (Option Rat)
+  jq : Std.HashMap (Nat × List Nat) (Option Rat)
+
+def Tables.cfg (t : Tables) (clampIdx : List Nat) (links : List Link) : Cfg Nat Nat :=
+  { clampIdx := clampIdx, links := links,
+    pos := fun j p => (t.pos.get? (j, p)).getD 0,
+    linkFn := fun lid p => (t.lnk.get? (lid, p)).getD 0 }
+
+def Tables.oracles (t : Tables) : Oracles Nat QV :=
+  { gq := fun pts => match t.gq.get? pts with
+      | some (some r) => some (.val r) | some none => none | none => some .miss,
+    jq := fun idx pts => match t.jq.get? (idx, pts) with
+      | some (some r) => some (.val r) | some none => none | none => some .miss }
+
+def parseTriples? (s : String) : Option (List (Nat × Nat × Nat)) := do
+  let xs ← parseList? s
+  xs.mapM (fun x => match x.splitOn ":" with
+    | [a, b, c] => do some ((← parseNat? a), (← parseNat? b), (← parseNat? c))
+    | _ => none)
+
+def parsePairs? (s : String) : Option (List (Nat × Nat)) := do
+  let xs ← parseList? s
+  xs.mapM (fun x => match x.splitOn ":" with
+    | [a, b] => do some ((← parseNat? a), (← parseNat? b))
+    | _ => none)
+
+def parseG? (s : String) : Option (Std.HashMap (List Nat) (Option Rat)) := do
+  let xs ← parseList? s
+  xs.foldlM (fun m x => match x.splitOn "=" with
+    | [k, v] => do some (m.insert (← parseDots? k) (← parseQ? v))
+    | _ => none) (Std.HashMap.emptyWithCapacity 64)
+
+def parseJ? (s : String) : Option (Std.HashMap (Nat × List Nat) (Option Rat)) := do
+  let xs ← parseList? s
+  xs.foldlM (fun m x => match x.splitOn "=" with
+    | [k, v] => match k.splitOn "@" with
+        | [i, ps] => do some (m.insert ((← parseNat? i), (← parseDots? ps)) (← parseQ? v))
+        | _ => none
+    | _ => none) (Std.HashMap.emptyWithCapacity 64)
+
+/-- one iteration `probes~solves`: probes `prm.prm.prm:sens;…` per clamp number, solves `prm.prm:flag;…` per call -/
+def parseIter? (s : String) : Option (IterSched Nat Rat) :=
+  match s.splitOn "~" with
+  | [ps, ss] => do
+      let probes ← (splitNonEmpty ps ";").mapM (fun x => match x.splitOn ":" with
+        | [e, v] => do some ((← parseDots? e), (← parseRat? v))
+        | _ => none)
+      let solves ← (splitNonEmpty ss ";").mapM (fun x => match x.splitOn ":" with
+        | [e, f] => do some ((← parseDots? e), f == "1")
+        | _ => none)
+      some { probe := fun j => probes.getD j ([], 0), solve := fun k _ => solves.getD k ([], false) }
+  | _ => none
+
+def Flag.show : Flag → String
+  | .improved => "I" | .rollback => "R" | .skip => "S"
+
+def Site.show : Site → String
+  | .probe => "probe" | .clampStart => "clampStart" | .clampRestore => "clampRestore"
+  | .iterBegin => "iterBegin" | .iterEnd => "iterEnd" | .illFormed => "illFormed"
+
+def QV.rat? : QV → Option Rat
+  | .val r => some r
+  | .miss => none
+
+/-- the tolerance criterion on recorded values; a miss never converges (and is visible in the answer) -/
+def convQV (tol : Rat) (hist : List (QV × QV)) : Bool :=
+  match hist.mapM (fun h => do some ((← h.1.rat?), (← h.2.rat?))) with
+  | some h => convRat tol h
+  | none => false
+
+/-- `c13.opt pts clamps links pos lnk G J maxit:tol sched back`
+    → `final=[…] prm=[…] raised=<site|none> fuel=<0|1> hist=[qi:qf,…] steps=[it:clamp:flag:gi:gf,…] back=<[…]|err>` -/
+def handleOpt (args : List String) : Option String :=
+  match args with
+  | [pts, clamps, links, pos, lnk, g, jt, drv, sched, back] => do
+      let pts ← parseNatList? pts
+      let clamps ← parsePairs? clamps
+      let links ← parseTriples? links
+      let pos ← parseTriples? pos
+      let lnk ← parseTriples? lnk
+      let g ← parseG? g
+      let jt ← parseJ? jt
+      let (maxIter, tol) ← match drv.splitOn ":" with
+        | [m, t] => do some ((← parseNat? m), (← parseRat? t))
+        | _ => none
+      let iters ← (if sched = "-" then some [] else (sched.splitOn "|").mapM parseIter?)
+      let t : Tables :=
+        { pos := pos.foldl (fun m (a, b, c) => m.insert (a, b) c) (Std.HashMap.emptyWithCapacity 64),
+          lnk := lnk.foldl (fun m (a, b, c) => m.insert (a, b) c) (Std.HashMap.emptyWithCapacity 64),
+          gq := g, jq := jt }
+      let cfg := t.cfg (clamps.map (·.1)) (links.map (fun (a, b, c) => ⟨a, b, c⟩))
+      let st0 : St Nat Nat := { pts := pts, prm := clamps.map (·.2) }
+      let empty : IterSched Nat Rat := { probe := fun _ => ([], 0), solve := fun _ _ => ([], false) }
+      let r := optimize cfg t.oracles (convQV tol) maxIter (fun k => iters.getD k empty) st0
+      let backStr ← match back.splitOn ":" with
+        | ["mesh"] => some (showNatList (backportMesh pts r.st.pts))
+        | ["sketch", qs] => do
+            let quads ← (splitNonEmpty qs ";").mapM parseDots?
+            some (match (sketchUpdate quads r.st.pts).bind (sketchPositions quads) with
+              | some ps => showNatList ps
+              | none => "err")
+        | _ => none
+      let stepStr := r.steps.zipIdx.flatMap (fun (ss, it) => ss.map (fun s =>
+        s!"{it}:{s.clamp}:{s.flag.show}:{s.gridInitial.show}:{s.gridFinal.show}"))
+      let histStr := r.hist.map (fun h => s!"{h.1.show}:{h.2.show}")
+      some (s!"final={showNatList r.st.pts} prm={showNatList r.st.prm} "
+        ++ s!"raised={(r.raised.map Site.show).getD "none"} fuel={if r.outOfFuel then 1 else 0} "
+        ++ s!"hist={showStrList histStr} steps={showStrList stepStr} back={backStr}")
+  | _ => none
+
+def handle (op : String) (args : List String) : Option String :=
+  match op with
+  | "c13.opt" => handleOpt args
+  | _ => none
 
 end CBV.C13
